@@ -106,6 +106,8 @@ _BUILTINS: Dict[str, Callable] = {
     "zip": zip,
     "hasattr": hasattr,
     "next": next,
+    "filter": filter,
+    "map": map,
     "iter": iter,
     "reversed": reversed,
     "divmod": divmod,
@@ -465,6 +467,18 @@ class Evaluator:
             self.locals[target.id] = value
         elif isinstance(target, (ast.Tuple, ast.List)):
             vals = list(value)
+            star = [i for i, t in enumerate(target.elts) if isinstance(t, ast.Starred)]
+            if star:
+                i = star[0]
+                after = len(target.elts) - i - 1
+                if len(vals) < len(target.elts) - 1:
+                    raise Raised("ValueError")
+                for t, v in zip(target.elts[:i], vals[:i]):
+                    self._assign(t, v)
+                self._assign(target.elts[i].value, vals[i:len(vals) - after])
+                for t, v in zip(target.elts[i + 1:], vals[len(vals) - after:]):
+                    self._assign(t, v)
+                return
             if len(vals) != len(target.elts):
                 raise Raised("ValueError")
             for t, v in zip(target.elts, vals):
